@@ -79,6 +79,15 @@ class Check(BaseCheck):
             rn = wire.Reply(drv.ask("normalize %s %s" % (wire.verts(v), wire.elems(t))))
             if rn.status != "ok" or core.relerr(im["normalized"], rn.v3s()) > 1e-9:
                 fails.append(core.Failure("correspondence", "normalize_ vs model", c["name"], c))
+            else:
+                # a mesh that already has unit area but is not centred: normalize_ must still move the centroid to the origin
+                vu = np.asarray(im["normalized"], float) + rng.uniform(-3, 3, 3)
+                def renorm():
+                    m3 = TriaMesh(vu, pt); m3.normalize_(); return np.array(m3.v)
+                r3 = core.call(renorm)
+                rm3 = wire.Reply(drv.ask("normalize %s %s" % (wire.verts(vu), wire.elems(t))))
+                if r3[0] != "ok" or rm3.status != "ok" or np.max(np.abs(r3[1] - rm3.v3s())) > 1e-9 * max(1.0, np.abs(vu).max()):
+                    fails.append(core.Failure("correspondence", "normalize_ vs model", "%s: unit-area mesh translated away from the origin" % c["name"], dict(c, v=vu, unit_area=True)))
             d = float(rng.uniform(-0.5, 0.5))
             ro = drv.ask("offset %s %s %s" % (wire.fhex(d), wire.verts(v), wire.elems(t)))
             def off():
@@ -194,6 +203,9 @@ class Check(BaseCheck):
         if np.max(np.abs(im["centroid"] - cref)) > 1e-9 * max(1, np.abs(v).max()):
             return core.Violation("centroid", "centroid differs from area-weighted mean of triangle centres", case)
         with core.quiet():
+            m4 = TriaMesh(np.asarray(im["normalized"], float) + np.array([2.0, -1.0, 0.5]), t); m4.normalize_()       # unit area already, not centred
+            if abs(m4.area() - 1) > 1e-9 or np.max(np.abs(m4.centroid()[0])) > 1e-9:
+                return core.Violation("normalize_", "normalize_ of a unit-area mesh away from the origin does not give centroid 0 (centroid %s)" % np.round(m4.centroid()[0], 4), case)
             mn = TriaMesh(im["normalized"], t)
             if abs(mn.area() - 1) > 1e-9 or np.max(np.abs(mn.centroid()[0])) > 1e-9:
                 return core.Violation("normalize_", "normalize_ does not give unit area and zero centroid", case)
